@@ -1574,3 +1574,46 @@ def t_cache( ctx ):
     if n < 5:
         raise AnalysisError( 'timestamp: stores to .value not found (%d)' % n )
     return res
+
+
+@rule( 'D-UNPACK', props=( 'C16', ), floor=2 )
+def d_unpack( ctx ):
+    """dotdict.py: a two-target unpack of <x>.split( <sep>, 1 ) yields two parts only if <sep> occurs in <x>; every such unpack is controlled by a
+    test `<sep> in <x>` on the same, unmodified <x> (otherwise a key whose last segment lacks the separator raises ValueError instead of being
+    resolved / reported as a KeyError)"""
+    res = Result( 'D-UNPACK' )
+    src = ctx.src( 'dotdict.py' )
+    n = 0
+    for s in ast.walk( src.tree ):
+        if not ( isinstance( s, ast.Assign ) and isinstance( s.targets[0], ast.Tuple ) and len( s.targets[0].elts ) == 2 ):
+            continue
+        m = pmatch( s.value, '_x.split( _sep, 1 )' )
+        if m is None or not isinstance( try_fold( m['_sep'] ), str ):
+            continue
+        n += 1
+        X, sep = txt( m['_x'] ), try_fold( m['_sep'] )
+        guarded = None
+        cur = s
+        for a in src.ancestors( s ):
+            if isinstance( a, ( ast.While, ast.If )) and any( cur is b for b in a.body ):
+                conj = a.test.values if isinstance( a.test, ast.BoolOp ) and isinstance( a.test.op, ast.And ) else [ a.test ]
+                g = [ c_ for c_ in conj if pmatch( c_, '%r in %s' % ( sep, X )) is not None ]
+                if g:
+                    # <x> must not be re-bound between the test and the unpack
+                    before = a.body[:a.body.index( cur )]
+                    rebound = [ b for b in before for t in ast.walk( b ) if isinstance( t, ast.Name ) and isinstance( t.ctx, ast.Store ) and t.id == X ]
+                    if not rebound:
+                        guarded = a
+                    break
+            cur = a
+            if isinstance( a, ast.FunctionDef ):
+                break
+        fn = src.qualname_of( s )
+        if guarded is not None:
+            res.ok( src, s, '%s: unpack of %s.split( %r, 1 ) is controlled by `%r in %s`' % ( fn, X, sep, sep, X ))
+        else:
+            res.bad( src, s, '%s: %s without establishing %r in %s' % ( fn, norm_text( s ), sep, X ),
+                     'when %s holds no further %r the split yields ONE part and the unpack raises ValueError: e.g. d["l[a.b]"] (an index expression containing a dot as the LAST segment) cannot be looked up although d["l[a.b].x"] can' % ( X, sep ))
+    if n < 2:
+        raise AnalysisError( 'dotdict.py: split( sep, 1 ) unpacks not found (%d)' % n )
+    return res
